@@ -23,6 +23,8 @@ MIN_OBS = {'array_comparisons': 10000, 'forming_comparisons': 2000, 'comparisons
            'fast_comparisons': 2000, 'stored_1m_checks': 2000, 'helper_cases': 200,
            'callbacks_of_market_orders_run_inside_a_chunk': 100}
 
+SHARD_TIMEOUT = 3600      # generous wall-clock watchdog (its firing is INCONCLUSIVE, never a verdict)
+
 CTX = {}
 
 
